@@ -806,10 +806,15 @@ def m_zip(eng, args, kwargs, anysym):
 
 
 def m_enumerate(eng, args, kwargs, anysym):
-    (xs,) = args
+    xs = args[0]
+    start = args[1] if len(args) > 1 else kwargs.get("start", 0)
     if isinstance(xs, SList):
+        if start != 0:
+            raise Unsupported("enumerate(symbolic list, start)")
         return ("enumerate", xs)
-    return list(enumerate(eng.iterate(xs)))
+    if isinstance(start, Sym):
+        raise Unsupported("enumerate with symbolic start")
+    return list(enumerate(eng.iterate(xs), start))
 
 
 def _quant_bool(eng, xs, positive):
